@@ -203,7 +203,10 @@ func VfSweepScenario() {
 	interval := time.Hour
 	maxDelay := 10 * time.Minute
 	offlineDelay := 30 * time.Minute
-	event := vfChoose("event", vfParam("EVENTS"))
+	event := vfParam("ONLYEVENT") // -1: any of the first EVENTS events
+	if event < 0 {
+		event = vfChoose("event", vfParam("EVENTS"))
+	}
 	opts := []Option{
 		WithReprovideInterval(interval), WithMaxReprovideDelay(maxDelay), WithReplicationFactor(r),
 		WithOfflineDelay(offlineDelay), WithConnectivityCheckOnlineInterval(time.Minute),
